@@ -1,7 +1,146 @@
-(** C15 placeholder while the pipeline is brought up; replaced by the real theorems. *)
+(** C15 — TailBitmap never forgets a set bit nor invents one, across any Set/Compact history.
+
+    Only the property theorems (each closed by [exact]), their axiom audit and
+    non-vacuity examples.  Vocabulary:
+      [run (NewTailBitmap o) ops = Some (s, rs)]  the history [ops] (any list of Set / Compact / Get /
+            Get1 calls, Model/TailBitmap.v) ran without a panic to state [s] with per-call results [rs];
+      [was_set ops j := In (OSet j) ops]           index [j] has been set by the history;
+      [TInv o P off ws]  (Spec/TailBitmapInv.v)    the invariant of DESIGN section 6 for the exported fields;
+      [tb_end off ws := off + 64*len(ws)]          the end of the stored words.
+    No bound on the length of the history, on the number of words or on the indices: arithmetic is
+    unbounded [Z] (size hypothesis of DESIGN section 3: Go's int64 agrees while |o|, |idx| stay far below
+    2^63, which no allocatable history can leave). *)
 From Coq Require Import ZArith List Bool.
-From Low Require Import Model.TailBitmap.
+From Low Require Import Lib.Bits Lib.BitSeq Model.TailBitmap Spec.TailBitmapSpec Spec.TailBitmapInv
+  Proofs.TailBitmapProofs Proofs.TailBitmapHist Proofs.TailBitmapChecker Run.C15.
+Import ListNotations.
 Open Scope Z_scope.
-Theorem C15_new_partial : forall o, Offset (NewTailBitmap o) = o /\ Words (NewTailBitmap o) = nil.
-Proof. exact (fun o => conj eq_refl eq_refl). Qed.
-Print Assumptions C15_new_partial.
+
+(** The invariant holds in every reachable state: Offset is a multiple of 64 and at least [o]; the
+    first stored word is not all-ones; everything below Offset is a member (Offset never moved past a
+    position that is still 0); every stored bit is 1 exactly when its index has been set; every index
+    ever set is below the end of the stored words. *)
+Theorem C15_invariant : forall o ops s rs, o mod 64 = 0 ->
+  run (NewTailBitmap o) ops = Some (s, rs) ->
+  TInv o (was_set ops) (Offset s) (Words s).
+Proof. exact reach_TInv. Qed.
+Print Assumptions C15_invariant.
+
+(** Along any history Offset and the end of the stored words never decrease, and Offset only moves
+    past positions that have been set (the run of the concatenation is the concatenation of the runs). *)
+Theorem C15_offset_monotone : forall o ops1 ops2 s1 rs1 s2 rs2, o mod 64 = 0 ->
+  run (NewTailBitmap o) ops1 = Some (s1, rs1) -> run s1 ops2 = Some (s2, rs2) ->
+  Offset s1 <= Offset s2 /\
+  tb_end (Offset s1) (Words s1) <= tb_end (Offset s2) (Words s2) /\
+  (forall j, Offset s1 <= j < Offset s2 -> was_set (ops1 ++ ops2) j) /\
+  run (NewTailBitmap o) (ops1 ++ ops2) = Some (s2, rs1 ++ rs2).
+Proof. exact reach_mono. Qed.
+Print Assumptions C15_offset_monotone.
+
+(** Get1(j) is 1 exactly when j < o or j has been set, and Get(j) is that bit at position j mod 64,
+    for EVERY j below the end of the stored words (negative j included). [m] is the truth value of
+    "j is a member". *)
+Theorem C15_Get_is_membership : forall o ops s rs j (m : bool), o mod 64 = 0 ->
+  run (NewTailBitmap o) ops = Some (s, rs) ->
+  j < tb_end (Offset s) (Words s) ->
+  (m = true <-> j < o \/ was_set ops j) ->
+  Get1 s j = Some (Z.b2z m) /\ Get s j = Some (Z.shiftl (Z.b2z m) (j mod 64)).
+Proof. exact reach_Get. Qed.
+Print Assumptions C15_Get_is_membership.
+
+(** Get/Get1 are defined (do not panic) exactly below the end of the stored words. *)
+Theorem C15_Get_defined_below_end : forall o ops s rs j, o mod 64 = 0 ->
+  run (NewTailBitmap o) ops = Some (s, rs) ->
+  (Get s j <> None <-> j < tb_end (Offset s) (Words s)) /\
+  (Get1 s j <> None <-> j < tb_end (Offset s) (Words s)).
+Proof. exact reach_Get_defined. Qed.
+Print Assumptions C15_Get_defined_below_end.
+
+(** The result recorded for the k-th call of a history, when it is a probe, is membership with
+    respect to the Sets that came BEFORE it. *)
+Theorem C15_probe_results : forall o ops s rs k j (m : bool), o mod 64 = 0 ->
+  run (NewTailBitmap o) ops = Some (s, rs) ->
+  (m = true <-> j < o \/ was_set (firstn k ops) j) ->
+  (nth_error ops k = Some (OGet1 j) -> nth_error rs k = Some (Z.b2z m)) /\
+  (nth_error ops k = Some (OGet j) -> nth_error rs k = Some (Z.shiftl (Z.b2z m) (j mod 64))).
+Proof. exact reach_probe. Qed.
+Print Assumptions C15_probe_results.
+
+(** Every index ever set is below the end of the stored words (so the two theorems above cover every
+    j up to the highest index ever set). *)
+Theorem C15_set_below_end : forall o ops s rs idx, o mod 64 = 0 ->
+  run (NewTailBitmap o) ops = Some (s, rs) -> In (OSet idx) ops ->
+  idx < tb_end (Offset s) (Words s).
+Proof. exact reach_set_below_end. Qed.
+Print Assumptions C15_set_below_end.
+
+(** Compact changes no Get / Get1 result, for any j whatsoever, and not the end. *)
+Theorem C15_Compact_changes_no_Get : forall o ops s rs, o mod 64 = 0 ->
+  run (NewTailBitmap o) ops = Some (s, rs) ->
+  tb_end (Offset (Compact s)) (Words (Compact s)) = tb_end (Offset s) (Words s) /\
+  forall j, Get (Compact s) j = Get s j /\ Get1 (Compact s) j = Get1 s j.
+Proof. exact reach_Compact. Qed.
+Print Assumptions C15_Compact_changes_no_Get.
+
+(** In a reachable state Set and Compact never panic, and a probe below the end never panics: a
+    history whose probes are below the end at their time runs to completion. *)
+Theorem C15_no_panic : forall o ops s rs, o mod 64 = 0 ->
+  run (NewTailBitmap o) ops = Some (s, rs) ->
+  forall p, (forall j, p = OGet j \/ p = OGet1 j -> j < tb_end (Offset s) (Words s)) ->
+  step s p <> None.
+Proof. exact reach_no_panic. Qed.
+Print Assumptions C15_no_panic.
+
+(** The bulk calls of the correspondence protocol are nothing but iterated Set. *)
+Theorem C15_bulk_is_iterated_Set : forall n s idx,
+  set_up n s idx = option_map fst (run s (map OSet (zrange_up idx n))) /\
+  set_down n s idx = option_map fst (run s (map OSet (zrange_down idx n))).
+Proof. exact (fun n s idx => conj (set_up_run n s idx) (set_down_run n s idx)). Qed.
+Print Assumptions C15_bulk_is_iterated_Set.
+
+(** The executable checker that ./check applies to the implementation's observations
+    (Spec/TailBitmapSpec.v: check_history) accepts the model's answer on every protocol history,
+    bulk calls included, with ([model_history], the protocol's size-bounded domain) or without
+    ([prun]) the protocol's domain restrictions. *)
+Theorem C15_checker_accepts_model : forall o ps l,
+  (model_history o ps = OOk l -> check_history o ps l = true) /\
+  (o mod 64 = 0 -> prun (NewTailBitmap o) ps = Some l -> check_history o ps l = true).
+Proof. exact (fun o ps l => conj (model_history_accepted o ps l) (prun_accepted o ps l)). Qed.
+Print Assumptions C15_checker_accepts_model.
+
+(** non-vacuity: o = 64; set 127 (the last bit of word 0), a set below the offset (ignored), fill
+    word 0 back to front so that Offset advances to 128, set a bit two words further, probe a stored 1
+    (Get1 and Get), a stored 0 and an implicit 1, Compact. *)
+Definition c15_ex_ops : list op :=
+  [OSet 127; OSet 3] ++ map OSet (zrange_down 126 63) ++ [OSet 300; OGet1 300; OGet 300; OGet1 299; OGet1 70; OCompact].
+
+Example C15_nonvacuous :
+  64 mod 64 = 0 /\
+  exists s rs, run (NewTailBitmap 64) c15_ex_ops = Some (s, rs) /\
+    Offset s = 128 /\ Words s = [0; 0; 2^44] /\ tb_end (Offset s) (Words s) = 320 /\
+    nth_error rs 66 = Some 1 /\ nth_error rs 67 = Some (2^44) /\ nth_error rs 68 = Some 0 /\
+    nth_error rs 69 = Some 1 /\
+    Get1 s 300 = Some 1 /\ Get s 300 = Some (Z.shiftl 1 (300 mod 64)) /\ Get1 s 299 = Some 0 /\
+    Get s 320 = None /\ Get1 s (-1) = Some 1.
+Proof.
+  split; [reflexivity|]. eexists. eexists. split; [vm_compute; reflexivity|].
+  vm_compute. repeat split; reflexivity.
+Qed.
+
+(** non-vacuity of the monotonicity statement: a history split in two, Offset moves 0 -> 64 -> 128 *)
+Example C15_monotone_nonvacuous :
+  exists s1 rs1 s2 rs2,
+    run (NewTailBitmap 0) (map OSet (zrange_up 0 64)) = Some (s1, rs1) /\
+    run s1 (map OSet (zrange_down 127 64)) = Some (s2, rs2) /\
+    Offset s1 = 64 /\ Offset s2 = 128 /\ Words s2 = [].
+Proof.
+  eexists. eexists. eexists. eexists.
+  split; [vm_compute; reflexivity|]. split; [vm_compute; reflexivity|]. vm_compute. auto.
+Qed.
+
+(** non-vacuity of the checker theorem: a protocol history with a bulk fill that the model answers *)
+Example C15_checker_nonvacuous :
+  exists l, model_history 64 [PSetUp 64 200; PGet1 199; PGet 200; PSet 255; PCompact; PSetDown 200 255] = OOk l /\
+            length l = 6%nat /\
+            check_history 64 [PSetUp 64 200; PGet1 199; PGet 200; PSet 255; PCompact; PSetDown 200 255] l = true.
+Proof. eexists. split; [vm_compute; reflexivity|]. vm_compute. auto. Qed.
